@@ -763,6 +763,9 @@ class Fxp():
         if self.scale is not None and self.bias is not None and raw:
             self.scaled = bool(self.bias != 0 or self.scale != 1)   # a raw value is stored as it is; the object keeps its scaling
         if self.scale is not None and self.bias is not None and not raw:
+            if (self.bias != 0 or self.scale != 1) and val.dtype.kind in 'iuf' and (val.dtype.itemsize < 8 or val.dtype.kind == 'u'):
+                # narrow or unsigned input types would wrap around or lose bits in the transformation: calculate it in 64 bits
+                val = val.astype(np.float64 if val.dtype.kind == 'f' else np.int64)
             if self.bias != 0:
                 val = val - self.bias
             if self.scale != 1:
